@@ -30,4 +30,17 @@ PROPS = {
         "trusted_base": ["exact rational/dyadic arithmetic of C17 below the interval layer"],
         "assumptions": ["value intervals with algebraic end points are not replayed through the model (see DESIGN)"],
     },
+    "C14": {
+        "level": "proof",
+        "lean_targets": ["LP.Props.C14"],
+        "harnesses": [{"name": "h_fsi", "quick": 4000, "thorough": 60000, "thorough_env": {"LPV_EXH7": "1"}}],
+        "select": lambda t: t[1] in ("fsi", "zp"),
+        "nontrivial": lambda t, r: t[2] in ("intersect", "union", "eq", "add", "contains", "pick", "roots", "feasible"),
+        "rule": "exhaustive: p in {2,3,5} (thorough: also 7): every ordered pair of subsets in all four listed/complemented representation "
+                "combinations through intersect/union (with and without status), add, assign, eq, and per set isempty/isfull/ispoint/size/pick/"
+                "contains on -p-1..p+1; random: p in {7,11,13,101,997,1009,10007,2^61-1,2^89-1} with overlapping element pools, boundary "
+                "residues and unnormalised inputs. Non-trivial = binary set operation, membership or pick; distinct = distinct line.",
+        "trusted_base": ["qsort + unique in the constructor modelled as insertion into a sorted duplicate-free list"],
+        "assumptions": ["operands are over the same field (documented precondition)"],
+    },
 }
